@@ -112,8 +112,14 @@ func runC17(em *vEmitter, r *vRng) {
 		run  func(x *c17Agent, user, pw string) (ok bool, errText string)
 	}
 	paths := []path{
-		{"interface/add", func(x *c17Agent, u, pw string) (bool, string) { err := x.api.Add(u, pw, false); return err == nil, fmt.Sprint(err) }},
-		{"interface/update", func(x *c17Agent, u, pw string) (bool, string) { err := x.api.Update("alice", pw); return err == nil, fmt.Sprint(err) }},
+		{"interface/add", func(x *c17Agent, u, pw string) (bool, string) {
+			err := x.api.Add(u, pw, false)
+			return err == nil, fmt.Sprint(err)
+		}},
+		{"interface/update", func(x *c17Agent, u, pw string) (bool, string) {
+			err := x.api.Update("alice", pw)
+			return err == nil, fmt.Sprint(err)
+		}},
 		{"api/add-by-admin", func(x *c17Agent, u, pw string) (bool, string) {
 			return x.post("add", map[string]interface{}{"session": x.adminTok, "username": u, "password": pw, "admin": false})
 		}},
@@ -223,7 +229,10 @@ func runC17(em *vEmitter, r *vRng) {
 
 // which comparator did the constructor pick?  probe it with synthetic scores
 func c17Kind(z zxcvbnPolicy) string {
-	type probe struct{ score int; ent, ct float64 }
+	type probe struct {
+		score   int
+		ent, ct float64
+	}
 	mk := func(p probe) bool {
 		var m = zxcvbn.PasswordStrength("a", nil)
 		m.Score, m.Entropy, m.CrackTime = p.score, p.ent, p.ct
